@@ -15,7 +15,7 @@ def main():
         cov.start()
         atexit.register(lambda: (cov.stop(), cov.save()))
     from harness import env, gen, programs
-    ns = env.load(with_utils=spec["kind"] in ("split", "split-arrays", "onehot-strings"))
+    ns = env.load(with_utils=spec["kind"] in ("split", "split-arrays", "onehot-strings", "loader-random-transform"))
     import numpy as np, random
     sg, nn = ns.sg, ns.nn
     tap = {"constructions": [], "draw_calls": {}}
@@ -134,6 +134,36 @@ def main():
                         put(join(a_, b_).data)
                     except Exception as e:
                         put(np.frombuffer(type(e).__name__.encode()[:8].ljust(8), dtype=np.uint8))
+        elif kind == "loader-random-transform":
+            # random augmentation in the loader's transform and random consumption in the loop body (Dropout, noise) share the one seeded stream:
+            # the order of the draws is fixed by the program, not by how long either side takes (delays are injected on alternating sides)
+            import time as _time
+            env.load(with_utils=True)
+            D_ = sys.modules["synapgrad.nn.utils.data"]
+            persist["lrt"] = persist.get("lrt", 0) + 1
+            slow_body = persist["lrt"] % 2 == 1
+            Xd = np.arange(48, dtype=np.float32).reshape(12, 4); yd = np.arange(12, dtype=np.float32)
+
+            def aug(loader, xb, yb):
+                if not slow_body:
+                    _time.sleep(0.004)
+                return ns.Tensor(np.array(xb)) + sg.randn(*np.shape(xb)) * 0.1, ns.Tensor(np.array(yb))
+            dl = D_.DataLoader(Xd, yd, 3, transform=aug)
+            drop = nn.Dropout(0.5)
+            for epoch in range(2):
+                for xb, yb in dl:
+                    if slow_body:
+                        _time.sleep(0.004)
+                    put(drop(xb).data); put(sg.rand(2).data); put(yb.data)
+            # an exception that leaves a no_grad block and is handled by the caller: the rest of the program (and its repetition) is unaffected
+            try:
+                with sg.no_grad():
+                    sg.ones(2, 3) @ sg.ones(2, 3)
+            except Exception:
+                pass
+            w_ = sg.randn(3, 2); w_.requires_grad = True
+            (w_ * w_).sum().backward()
+            put(w_.grad.data)
         elif kind == "dropout-untracked":
             # Monte-Carlo dropout / a validation pass without eval(): Dropout in training mode under no_grad draws from the seeded stream as well
             d = nn.Dropout(spec.get("p", 0.4))
